@@ -113,9 +113,9 @@ def check(run):
         run.inconclusive.append("VERIF_C20_REPLAY_ONLY set: model-only stages and negative controls skipped (development mode)")
     else:
         # exhaustive only (no emission): every reader on every label set, larger bounds in the thorough tier
-        run.tlc_mc("Labels", "Labels_mc_tamper.cfg", {"MaxTamper": "3", "NVariants": "1"} if thorough else {"MaxTamper": "2", "NVariants": "1"},
-                   workers=4, timeout=3000, name="tamper all-readers")
         if thorough:
+            run.tlc_mc("Labels", "Labels_mc_tamper.cfg", {"MaxTamper": "3", "NVariants": "1"}, workers=4, timeout=3000, name="tamper all-readers")
+            run.tlc_mc("Labels", "Labels_mc_edge.cfg", None, workers=4, timeout=3000, name="edge all-readers")
             run.tlc_mc("Labels", "Labels_mc_full.cfg", {"MaxTamper": "1", "NVariants": "1"}, workers=4, timeout=3000, name="full<=3 all-readers tamper1")
             run.tlc_mc("Labels", "Labels_mc_full.cfg", {"MaxLayers": "4", "MatchedOnly": "TRUE", "Readers": '{"default", "cri"}'}, workers=4, timeout=3000, name="full<=4")
             run.tlc_mc("Labels", "Labels_mc_long.cfg", None, workers=4, timeout=3000, name="long all-readers")
